@@ -92,15 +92,27 @@ void harness(void)
 	g_opos = g_keep;   /* the unread bytes are the first bytes of the output */
 	g_owat = g_ow < g_keep ? g_off0 + (size_t)g_ow : C15_NOWHERE;
 	g_moves = 0;
+#ifdef C15_HAVE_IN_STREAM
+	/* representation invariant of the fixed wrapper: its belief about the
+	 * decoder being in mid-stream is the truth */
+	g_x.in_stream = g_open;
+#endif
 	VERIF_COVER(g_off0 > 0 && g_keep > 4);
 
 	ret = precache((sqfs_istream_t *)&g_x);
 
-	VERIF_ASSERT((ret != 0) == (g_in_err || g_codec_err), "C15.in.fail");
-	if (ret != 0)
+	/* a failure is a source error, a codec error, or - the only other
+	 * permitted reason - a compressed stream cut short by the end of input */
+	if (g_in_err || g_codec_err)
 		VERIF_ASSERT(ret == (g_in_err ? g_in_errcode
 					      : SQFS_ERROR_COMPRESSOR),
 			     "C15.in.fail");
+	else if (ret != 0)
+		VERIF_ASSERT(ret < 0 && g_eofseen && g_open, "C15.in.fail");
+#ifdef C15_HAVE_IN_STREAM
+	if (ret == 0)
+		VERIF_ASSERT(g_x.in_stream == g_open, "C15.in.tracks_stream_state");
+#endif
 	VERIF_ASSERT(g_x.buffer_offset == 0 && g_x.buffer_used <= BUFSZ,
 		     "C15.in.deliver_once");
 	if (ret == 0) {
